@@ -40,11 +40,13 @@ func c08DeriveVal(r *rand.Rand, v any, o genOpts, fresh []string) any {
 		if len(x) == 2 && reflect.DeepEqual(x[0], 9007199254740993) && r.Intn(2) == 0 {
 			return []any{9007199254740992, map[string]any{"id": 9223372036854775806}}
 		}
-		switch r.Intn(4) {
+		switch r.Intn(5) {
 		case 0, 1:
 			return c08GenList(r, o, 1)
 		case 2: // same length, every composite item grown: a key more in containers, an item more in lists
 			return c08Grow(r, x, o).([]any)
+		case 3: // same length, same shape, some scalars (or kinds) inside the records differ
+			return c08Tweak(r, x, o).([]any)
 		}
 		return deepCopy(x)
 	default:
@@ -74,6 +76,32 @@ func c08Grow(r *rand.Rand, v any, o genOpts) any {
 		return l
 	default:
 		return v
+	}
+}
+
+// the same shape with other scalars: lists may differ arbitrarily between L and R, also only in a leaf
+func c08Tweak(r *rand.Rand, v any, o genOpts) any {
+	switch x := v.(type) {
+	case map[string]any:
+		m := map[string]any{}
+		for k, c := range x {
+			m[k] = c08Tweak(r, c, o)
+		}
+		return m
+	case []any:
+		l := make([]any, 0, len(x))
+		for _, c := range x {
+			l = append(l, c08Tweak(r, c, o))
+		}
+		return l
+	default:
+		switch r.Intn(3) {
+		case 0:
+			return v
+		case 1:
+			return map[string]any{"sub": genScalar(r, o)}
+		}
+		return genScalar(r, o)
 	}
 }
 
@@ -120,6 +148,17 @@ func c08GenDoc(r *rand.Rand, o genOpts) map[string]any {
 	}
 	if r.Intn(6) == 0 {
 		m[o.keys[r.Intn(len(o.keys))]] = map[string]any{"e": []any{}, "f": []any{map[string]any{"p": 1}, map[string]any{"p": 2, "q": []any{1}}}}
+	}
+	if r.Intn(5) == 0 { // empty mappings reachable through mappings: part of the document although they have no leaves
+		m[o.keys[r.Intn(len(o.keys))]] = []any{map[string]any{}, map[string]any{"sel": map[string]any{}}, map[string]any{"m": map[string]any{"n": map[string]any{}}, "v": 1}}[r.Intn(3)]
+	}
+	if r.Intn(6) == 0 { // a list of records, the shape lists of a manifest have
+		n := 1 + r.Intn(3)
+		recs := make([]any, n)
+		for i := range recs {
+			recs[i] = map[string]any{"name": fmt.Sprint("n", i), "port": 80 + i, "be": map[string]any{"p": i}}
+		}
+		m[o.keys[r.Intn(len(o.keys))]] = recs
 	}
 	return m
 }
@@ -222,6 +261,8 @@ func init() {
 				c08ApplyDiff(map[string]any{"a": []any{map[string]any{"x": 1, "y": 2}}}, map[string]any{"a": []any{map[string]any{"z": 1}}}), // pinned-tree defect
 				c08ApplyDiff(map[string]any{"a": []any{[]any{1, 2}, []any{3}}}, map[string]any{"a": []any{5}}),
 				c08ApplyMods(map[string]any{"a": 1}, nil, "apply-nil"),
+				c08ApplyMods(map[string]any{"a": map[string]any{"b": map[string]any{"c": map[string]any{}}}, "x": 1, "sel": map[string]any{}}, nil, "apply-nil"),
+				c08ApplyDiff(map[string]any{"ports": []any{map[string]any{"port": 80, "name": "http"}}}, map[string]any{"ports": []any{map[string]any{"port": 8080, "name": "http"}}}),
 				c08ApplyMods(map[string]any{}, []diff.Modification{{Type: diff.ModAdd, Path: "a.b[1][0].c", Value: 7}}, "apply-one"),
 			}
 		},
